@@ -517,9 +517,14 @@ func runLifeScenario(sc LifeScenario) LifeResult {
 		}()
 	}
 
-	// teardown must complete
+	// teardown must complete (with flood protection on the send goroutine may be inside a hold of a few seconds
+	// that nothing interrupts: allow for it)
 	want := 1
-	done := waitFor(func() bool { return lg.count("DISCONNECTED") >= want }, 4*time.Second)
+	patience := 4 * time.Second
+	if !sc.Flood {
+		patience = 12 * time.Second
+	}
+	done := waitFor(func() bool { return lg.count("DISCONNECTED") >= want }, patience)
 	if !done {
 		gs := libGoroutines()
 		res.Stuck = strings.Join(gs, " | ")
